@@ -6,7 +6,7 @@ drv_codec c11 : script lines
     seq | <t>:<payload> ; <t>:<payload> ; ...
   t = b bool (0|1), y byte (2 hex digits), h int16, i int32, l int64, v 7-bit int32 (signed decimal),
       B bytes, S string, R raw Write/Read (hex, "-" = empty)
-  output:  bytes=<hex> | <t>:<value>@<pos> ... | len=<n> pos=<p>
+  output:  bytes=<hex> | <t>:<value>@<pos> ... | len=<n> pos=<p> | alias=ok
   (all writes in order with the model writers; then the matching read calls in order)
   second form:  range32 <block>  →  crc=<8 hex>   CRC-32 over the model's observations of the 2^16 int32 patterns
   block*65536 .. block*65536+65535 (fixed + 7-bit write, read back); see harness/cmd/c11/range.go
@@ -138,7 +138,8 @@ def renderC11 (vals : List Val) : String :=
     let final := match rs.getLast? with
       | some r => r.pos
       | none => 0
-    joinSp (["bytes=" ++ hexOf bs, "|"] ++ items ++ ["|", s!"len={bs.length}", s!"pos={final}"])
+    -- the model has value semantics: values kept by the caller cannot change, inputs cannot be captured
+    joinSp (["bytes=" ++ hexOf bs, "|"] ++ items ++ ["|", s!"len={bs.length}", s!"pos={final}", "|", "alias=ok"])
 
 def stepC11 (_ : Unit) (line : String) : Unit × String :=
   if line.trimAscii.isEmpty then ((), "") else
